@@ -583,13 +583,21 @@ class FileSession(Session):
             path = self._get_file_path()
         try:
             with open(path, 'rb') as f:
-                return pickle.load(f)
-        except (IOError, EOFError, pickle.UnpicklingError):
+                data, expiration_time = pickle.load(f)
+            if not isinstance(expiration_time, datetime.datetime):
+                raise TypeError('not a session pickle')
+        except Exception:
+            # A file that is missing, was left truncated by a crash during
+            # save or is otherwise not a session pickle is no session.
+            # What pickle.load raises on damaged input is not limited to
+            # EOFError and UnpicklingError (ValueError, ImportError,
+            # UnicodeDecodeError, MemoryError, ...).
             e = sys.exc_info()[1]
             if self.debug:
                 cherrypy.log('Error loading the session pickle: %s' %
                              e, 'TOOLS.SESSIONS')
             return None
+        return data, expiration_time
 
     def _save(self, expiration_time):
         assert self.locked, ('The session was saved without being locked.  '
